@@ -12,6 +12,11 @@ def run(tier):
     r = vf.tlc("MC_Raster", cfg, workers=8, gc="parallel", heap="8g", tag="MC_RasterI")
     chk.add_mc("MC_Raster/Interp", r, {"G": 2})
     (n1, f1, _), (n2, f2, _) = c04.raster_pipeline(chk, tier, "TV_RasterFrag", "C05")
+    # the same fragments when a consumer skips the first columns of each span through Scanline::vs
+    binpath = vf.build_harness()
+    skip = os.path.join(d, "skip.ndjson")
+    vf.run_harness(binpath, ["raster", "gen", "--seed", vf.seed(), "--tier", tier, "skip"], stdout_path=skip)
+    vf.exec_and_validate(chk, binpath, "raster", "TV_RasterFrag", skip, jvms=8, what="triangle (columns skipped)")
     # growth beyond the statement (DESIGN §8): the Vary stepping iterators the rasteriser is built on;
     # rejections there are notes, not violations of C05
     cfgv = vf.write_cfg(os.path.join(d, "MC_Vary.cfg"), None, invariants=["Laws"])
